@@ -99,7 +99,7 @@ def work(shard, tier):
         # set of signatures found on a given tree does not depend on the seed; the rest is seed-sampled
         extra = [v for v in allnums[2:]]
         rng.shuffle(extra)
-        nums = allnums[:2] + extra[:2 if tier == 'quick' else 18]
+        nums = allnums[:2] + extra[:2 if tier == 'quick' else 120]
         for vi, v in enumerate(nums):
             n = len(v)
             dpos = [i for i, c in enumerate(v) if c in '0123456789']
